@@ -68,7 +68,8 @@ mut('C18', 'version-compare-always-equal', C, "        if current_hash == cache_
 mut('C18', 'versionhash-only-argv0', C, "    sources.append(sys.argv[0])", "    sources = [sys.argv[0]]")
 mut('C18', 'versionhash-first-source-only', C, "    mtimes = (str(os.stat(source).st_mtime) for source in sources)", "    mtimes = (str(os.stat(source).st_mtime) for source in sources[:1])")
 mut('C18', 'filename-keyed-on-basename', C, "hexdigest = hashlib.sha1(filename.encode('utf-8')).hexdigest()", "hexdigest = hashlib.sha1(os.path.basename(filename).encode('utf-8')).hexdigest()")
-mut('C18', 'enoent-not-tolerated-in-load', C, "            if e.errno == errno.ENOENT:\n                return None\n            else:\n                raise\n\n        with fd:", "            raise\n\n        with fd:")
+mut('C18', 'enoent-not-tolerated-in-load', C, "            if e.errno in (errno.ENOENT, errno.EACCES):\n                return None\n            else:\n                raise\n\n        with fd:", "            raise\n\n        with fd:")
+mut('C18', 'D5-reintroduced', C, "            if e.errno in (errno.ENOENT, errno.EACCES):\n                return None\n            else:\n                raise\n\n        with fd:", "            if e.errno == errno.ENOENT:\n                return None\n            else:\n                raise\n\n        with fd:")
 mut('C18', 'enoent-not-tolerated-in-remove', C, "            if e.errno in (errno.EACCES, errno.ENOENT):\n                return\n            else:\n                raise", "            if e.errno in (errno.EACCES,):\n                return\n            else:\n                raise")
 mut('C18', 'store-wrong-path', T, "                self._cachestore.store(filename, parser, mtime_ns)", "                self._cachestore.store(os.path.join(os.path.dirname(os.path.dirname(filename)), 'a', os.path.basename(filename)), parser, mtime_ns)")
 mut('C18', 'store-in-place-no-temp', C, "        try:\n            shutil.move(tmp_filename, store_filename)", "        try:\n            shutil.copyfile(tmp_filename, store_filename); os.unlink(tmp_filename)",
